@@ -35,6 +35,8 @@ RING_OH = ("rule OH{ reactant r1{ O labeled o1 H labeled h1 single bond to o1 } 
            "increase number of radical (o1) increase number of radical (h1) break bond(o1,h1) }")
 RING_DB = ("rule DB{ reactant r1{ C labeled c1 C labeled c2 double bond to c1 } "
            "increase number of radical (c1) increase number of radical (c2) decrease bond order (c1,c2) }")
+RING_CCDEC = ("rule CCD{ reactant r1{ C labeled c1 C labeled c2 single bond to c1 } "
+              "increase number of radical (c1) increase number of radical (c2) decrease bond order (c1,c2) }")
 RULES = {
     'CH-scission': '[C:1][H:2]>>[C:1].[H:2]',
     'CC-scission': '[C:1][C:2]>>[C:1].[C:2]',
@@ -43,7 +45,7 @@ RULES = {
     'C=C-to-C-C': '[C:1]=[C:2]>>[C:1][C:2]',
     'C-C-to-C=C': '[C:1][C:2]>>[C:1]=[C:2]',      # most of its products are over-valent and must be filtered one by one
     'ring:CH-scission': RING_CH, 'ring:CC-scission': RING_CC, 'ring:OH-scission': RING_OH,
-    'ring:C=C-decrease': RING_DB,
+    'ring:C=C-decrease': RING_DB, 'ring:C-C-decrease': RING_CCDEC,
 }
 SEEDS = ['C', 'CC', 'C=C', 'CO', '[CH3]', 'C[CH2]', 'CCC', 'CCO', 'O', 'C#C']
 
@@ -143,6 +145,7 @@ def one_run(seed_smiles, rule_names, limit=400):
     if kind == 'error':
         return {'error': '%s: %s' % (type(net).__name__, str(net)[:100]), 'species': list(ids)}
     result = []
+    split = [Chem.MolToSmiles(m) for m in net if len(Chem.GetMolFrags(m)) > 1]
     for m in net:
         mh = Chem.AddHs(m)
         for a in mh.GetAtoms():
@@ -152,7 +155,7 @@ def one_run(seed_smiles, rule_names, limit=400):
     for e in events:
         e.setdefault('list', [])
     return {'seeds': seed_ids, 'succ': succ_tab, 'nrules': len(rules), 'events': events,
-            'species': list(ids), 'net': [Chem.MolToSmiles(m) for m in net]}
+            'species': list(ids), 'net': [Chem.MolToSmiles(m) for m in net], 'split': split}
 
 
 def run(ctx):
@@ -184,6 +187,9 @@ def run(ctx):
     combos.append((['C=C'], ['C=C-to-C-C', 'CH-scission']))
     combos.append((['CO'], ['OH-scission', 'CO-scission', 'CH-scission']))
     combos.append((['CCO'], ['ring:OH-scission', 'ring:CC-scission']))
+    # a rule that takes a single bond away by lowering its order: its products are two species
+    combos.append((['CC'], ['ring:C-C-decrease']))
+    combos.append((['CCO'], ['ring:C-C-decrease', 'ring:OH-scission']))
     # a seed that is a radical of an earlier seed, with rules that do not regenerate it from the parent
     combos.append((['CC', 'C[CH2]'], ['CC-scission']))
     combos.append((['C[CH2]', 'CC'], ['CC-scission']))
@@ -215,6 +221,11 @@ def run(ctx):
             ctx.violation('generator-error:%s|%s' % (seeds, rules),
                           'GenerateRxnNet(%s, %s) raised %s' % (seeds, rules, r['error']),
                           {'kind': 'run', 'seeds': seeds, 'rules': rules})
+            continue
+        if r['split']:
+            ctx.violation('species-not-one-molecule:%s|%s' % (seeds, rules),
+                          'GenerateRxnNet(%s, %s) lists %s as one species: the products of a rule application are its '
+                          'connected fragments' % (seeds, rules, r['split'][:3]), {'kind': 'run', 'seeds': seeds, 'rules': rules})
             continue
         runs.append({k: r[k] for k in ('seeds', 'succ', 'nrules', 'events')})
         meta.append((seeds, rules, r))
